@@ -11,7 +11,8 @@ depends on the contents and the statement only.
 Canonical form shared with the harness: rows of a selection that share a timestamp come in the
 model's order; the rows of a timestamp whose rows are only partly inside the limit / offset
 window are printed as `<t>:~` (which of them are returned is not determined by the language);
-the time of a lone `min` / `max` whose extreme value occurs at several times is printed as `~`.
+the time of a lone `min` / `max` whose extreme value occurs at several times is printed as `~`;
+a cell of `first(<boolean>)` on which the two tie rules of the code disagree is printed as `~`.
 -/
 import OG.C08.Model
 
@@ -159,6 +160,19 @@ def loneExtremeTie (q : Query) (rows : List Row) : Bool :=
 def showRowTie (tie : Bool) (r : OutRow) : String :=
   if tie then "~:" ++ ",".intercalate (r.vals.map showVal) else showRow r
 
+/-- the statement with every `first` of the boolean column computed by the cursor's rule. -/
+def cursorRule (q : Query) : Query :=
+  { q with calls := q.calls.map (fun (f, c) => if f == .first && c == .fb then (Fn.firstC, c) else (f, c)) }
+
+def hasBoolFirst (q : Query) : Bool := q.agg && q.calls.any (fun (f, c) => f == .first && c == .fb)
+
+/-- a cell on which the executor's rule and the cursor's rule for `first` of a boolean disagree
+(values of one timestamp from different series) is printed as `~`, whatever was filled from it
+included. -/
+def showRowAmb (r m : OutRow) : String :=
+  showTime r.t ++ ":" ++ ",".intercalate
+    ((r.vals.zip m.vals).map (fun (v, mv) => if v == mv then showVal v else "~"))
+
 /-- canonical answer of a statement. -/
 def answer (q : Query) (db : Db) : String :=
   let rows := db.filter q.keep
@@ -170,6 +184,9 @@ def answer (q : Query) (db : Db) : String :=
     let cut := if q.agg then [] else cutTimes q.limit q.offset full
     let out := applyLimit q.limit q.offset full
     if out.isEmpty then none
+    else if hasBoolFirst q then
+      let outC := applyLimit q.limit q.offset ((cursorRule q).evalAgg grows)
+      some (showGroupTag q.grp k ++ "{" ++ ";".intercalate ((out.zip outC).map (fun (r, m) => showRowAmb r m)) ++ "}")
     else if loneExtremeTie q grows then
       some (showGroupTag q.grp k ++ "{" ++ ";".intercalate (out.map (showRowTie true)) ++ "}")
     else some (showGroupTag q.grp k ++ "{" ++ ";".intercalate (out.map (showRowCut cut)) ++ "}"))
